@@ -8,6 +8,7 @@
 -/
 import Hagall.Spec.Monitors
 import Hagall.Model.Latency
+import Hagall.Model.Auth
 open Hagall Hagall.Wire
 
 structure Block where
@@ -184,6 +185,33 @@ def checkStat (toks : List String) : Option String :=
     | _, _ => some "unparseable STAT line"
   | _ => some "unparseable STAT line"
 
+def parseTok (s : String) : Option Hagall.Auth.Tok :=
+  match s.splitOn "," with
+  | [w, alg, m, e, i, n] =>
+    let oi (x : String) : Option Int := if x == "-" then none else x.toInt?
+    some { wellFormed := w == "1", alg, macOk := m == "1", exp := oi e, iat := oi i, nbf := oi n }
+  | _ => none
+
+/-- `AUTH route=.. secret=.. hdr=.. query=.. cookie=.. T0=.. T1=.. T2=.. | entered=.. status=..`: one request against
+    the real auth wrappers; `Auth.admitted` on the reference facts must equal whether the protected handler ran -/
+def checkAuth (toks : List String) : Option String :=
+  let kv (k : String) : Option String :=
+    toks.findSome? fun t => if t.startsWith (k ++ "=") then some (t.drop (k.length + 1)).toString else none
+  let tokOf (i : String) : Option Hagall.Auth.Tok := (kv ("T" ++ i)).bind parseTok
+  match kv "secret", kv "hdr", kv "query", kv "cookie", kv "entered" with
+  | some sec, some hdr, some q, some ck, some ent =>
+    let header : Option (Bool × Hagall.Auth.Tok) :=
+      if hdr == "-" then none else (tokOf (hdr.drop 1).toString).map fun t => (hdr.startsWith "B", t)
+    let query := if q == "-" then none else tokOf q
+    let cookie := if ck == "-" then none else tokOf ck
+    let expect := Hagall.Auth.admitted (sec == "1") ⟨header, query, cookie⟩
+    let got := ent != "0"
+    if ent != "0" && ent != "1" then some s!"handler-ran-more-than-once: entered={ent}"
+    else if expect == got then none
+    else if got then some "admitted-without-valid-token: the protected handler ran for a request the model rejects"
+    else some "valid-token-rejected: the protected handler did not run for a request the model admits"
+  | _, _, _, _, _ => some "unparseable AUTH line"
+
 partial def loop (stdin : IO.FS.Stream) (h : Option Hist) (b : Block) : IO Unit := do
   let line ← stdin.getLine
   if line.isEmpty then
@@ -220,6 +248,13 @@ partial def loop (stdin : IO.FS.Stream) (h : Option Hist) (b : Block) : IO Unit 
     | some d =>
       let cause := (d.splitOn ":").head!
       IO.println s!"M 0 C18 {cause} event=0 :: {d} :: STAT {" ".intercalate rest}"
+    loop stdin h b
+  | "AUTH" :: rest =>
+    match checkAuth rest with
+    | none => IO.println "A ok"
+    | some d =>
+      let cause := (d.splitOn ":").head!
+      IO.println s!"M 0 C15 {cause} event=0 :: {d} :: AUTH {" ".intercalate rest}"
     loop stdin h b
   | "STATERR" :: rest =>
     IO.println s!"M 0 C18 measurement-failed event=0 :: {" ".intercalate rest}"
